@@ -23,19 +23,19 @@ func init() {
 }
 
 func runC09(c *core.Ctx) {
-	ruleKeyAfterCompare(c)
-	ruleKeyReaders(c)
-	ruleAuthOrder(c)
-	rulePermTables(c)
-	rulePasswordPrep(c)
-	ruleStringDecryption(c)
-	ruleStringEncryptionUnconditional(c, "C09-R8")
-	ruleNoArgMutation(c, "C09-R9")   // encrypting a string must not corrupt the value for its next use
-	ruleInStreamGuards(c, "C09-R10") // strings are encrypted under the key of the object they belong to
-	ruleUserKeyComparison(c, "C09-R12")
-	ruleWriterSideDefaults(c, "C09-R13")
-	ruleEncryptMetadataDomain(c, "C09-R14")
-	ruleCryptoConstants(c, "C09-R11") // the standard's algorithms: a conforming file's correct password must be accepted
+	c.Guard(func() { ruleKeyAfterCompare(c) })
+	c.Guard(func() { ruleKeyReaders(c) })
+	c.Guard(func() { ruleAuthOrder(c) })
+	c.Guard(func() { rulePermTables(c) })
+	c.Guard(func() { rulePasswordPrep(c) })
+	c.Guard(func() { ruleStringDecryption(c) })
+	c.Guard(func() { ruleStringEncryptionUnconditional(c, "C09-R8") })
+	c.Guard(func() { ruleNoArgMutation(c, "C09-R9") })   // encrypting a string must not corrupt the value for its next use
+	c.Guard(func() { ruleInStreamGuards(c, "C09-R10") }) // strings are encrypted under the key of the object they belong to
+	c.Guard(func() { ruleUserKeyComparison(c, "C09-R12") })
+	c.Guard(func() { ruleWriterSideDefaults(c, "C09-R13") })
+	c.Guard(func() { ruleEncryptMetadataDomain(c, "C09-R14") })
+	c.Guard(func() { ruleCryptoConstants(c, "C09-R11") }) // the standard's algorithms: a conforming file's correct password must be accepted
 }
 
 func isKeyField(info *types.Info, e ast.Expr) bool {
